@@ -268,7 +268,9 @@ type PieceReader struct {
 	Closed bool
 }
 
-func NewPieceReader(p []string) *PieceReader { return &PieceReader{pieces: append([]string(nil), p...)} }
+func NewPieceReader(p []string) *PieceReader {
+	return &PieceReader{pieces: append([]string(nil), p...)}
+}
 
 func (p *PieceReader) Read(b []byte) (int, error) {
 	for len(p.pieces) > 0 && p.pieces[0] == "" {
@@ -411,4 +413,72 @@ func FromRequest(req *bfe_http.Request, body string, bodyNil bool) *R {
 	sort.Strings(r.Trailer)
 	r.FillDerived(req.URL)
 	return r
+}
+
+// SegReader delivers the input in scripted segments: "-" whole, "1" one byte per Read, "c<o1>,<o2>,…" cut at the
+// offsets, prefix "e" = an empty Read (0, nil) before every segment; data and EOF never come together except with "z".
+type SegReader struct {
+	data  []byte
+	cuts  []int
+	empty bool
+	flip  bool
+}
+
+func NewSegReader(data []byte, spec string) (*SegReader, bool) {
+	r := &SegReader{data: data}
+	if strings.HasPrefix(spec, "e") {
+		r.empty = true
+		spec = spec[1:]
+	}
+	switch {
+	case spec == "-" || spec == "":
+	case spec == "1":
+		for i := 1; i < len(data); i++ {
+			r.cuts = append(r.cuts, i)
+		}
+	case strings.HasPrefix(spec, "c"):
+		for _, f := range strings.Split(spec[1:], ",") {
+			n := 0
+			for _, c := range f {
+				if c < '0' || c > '9' {
+					return nil, false
+				}
+				n = n*10 + int(c-'0')
+			}
+			if n <= 0 || n >= len(data) || (len(r.cuts) > 0 && n <= r.cuts[len(r.cuts)-1]) {
+				return nil, false
+			}
+			r.cuts = append(r.cuts, n)
+		}
+	default:
+		return nil, false
+	}
+	return r, true
+}
+
+func (r *SegReader) Read(p []byte) (int, error) {
+	if len(r.data) == 0 {
+		return 0, io.EOF
+	}
+	if r.empty && !r.flip {
+		r.flip = true
+		return 0, nil
+	}
+	r.flip = false
+	n := len(r.data)
+	if len(r.cuts) > 0 {
+		n = r.cuts[0]
+	}
+	if n > len(p) {
+		n = len(p)
+	}
+	copy(p, r.data[:n])
+	r.data = r.data[n:]
+	for i := range r.cuts {
+		r.cuts[i] -= n
+	}
+	for len(r.cuts) > 0 && r.cuts[0] <= 0 {
+		r.cuts = r.cuts[1:]
+	}
+	return n, nil
 }
